@@ -3,7 +3,7 @@
 From Coq Require Import List ZArith Lia Bool Permutation.
 From Herc Require Import Burndown.Base Burndown.Dense Burndown.DenseProofs Burndown.Lifetimes Burndown.LifetimesFacts
   Burndown.AncFacts Burndown.Analysis Burndown.SparseFacts Burndown.AnalysisFacts Burndown.Replay
-  Burndown.LinearProofs Burndown.CommitProofs Burndown.PlanProofs.
+  Burndown.LinearProofs Burndown.CommitProofs Burndown.PlanProofs Burndown.DagProofs.
 Import ListNotations.
 Open Scope Z_scope.
 
@@ -103,3 +103,168 @@ Proof.
 Qed.
 
 Print Assumptions matrix_cells_merge_free.
+
+(* C01_matrix, any validated plan (merges included) *)
+Theorem matrix_cells h cf aidx plan w G S M last :
+  conflict_free h = true -> (forall c, 0 <= c < ncommits h -> tick_of h c < mark) -> (forall c, 0 <= znth 0 aidx c) ->
+  plan_okb h plan = true -> run_hist cf h aidx plan = Ok w ->
+  1 <= G -> 1 <= S -> group_sparse_history G S (s_gh (w_shared w)) (-1) = Ok (M, last) ->
+  forall s b, 0 <= s <= last / S -> 0 <= b <= last / G -> cell M s b = truth_cell h G S keep_all s b.
+Proof.
+  intros Hcf Hmark Haidx Hok Er HG HS Eg s b Hs Hb.
+  destruct (global_sparse h cf aidx Hcf Hmark Haidx plan w Hok Er) as (Hsum & Hgh & _).
+  assert (Hne : s_gh (w_shared w) <> []) by (intros E0; rewrite E0 in Eg; discriminate).
+  destruct (gh_ok_dense mark (s_gh (w_shared w)) G S Hgh Hne HS HG) as (M0 & last0 & E0 & Hcell & _).
+  rewrite Eg in E0. injection E0 as <- <-.
+  rewrite Hcell by auto. rewrite Hsum. apply contrib_truth; auto.
+Qed.
+
+Print Assumptions matrix_cells.
+
+(* ---------- the dimensions: the largest key of the sparse history is the last event tick ---------- *)
+Lemma gh_ok_dense_full T H G S : gh_ok T H -> H <> [] -> 1 <= S -> 1 <= G ->
+  exists M last, group_sparse_history G S H (-1) = Ok (M, last) /\
+    length M = Z.to_nat (last / S + 1) /\ (forall row, In row M -> length row = Z.to_nat (last / G + 1)) /\
+    (forall s b, 0 <= s <= last / S -> 0 <= b <= last / G ->
+       cell M s b = wsum (fun t k => (Z.quot t S <=? s) && (Z.quot k G =? b)) H) /\
+    (forall t, In t (keys H) -> 0 <= t <= last) /\ In last (keys H).
+Proof.
+  intros (K1 & K2 & K3) Hne HS HG.
+  set (last := last_z (sort_z (map fst H)) 0).
+  assert (Hmax : forall t, In t (keys H) -> 0 <= t <= last).
+  { intros t Ht. split; [apply (K3 t Ht)|]. unfold last. apply last_z_max; [apply sort_z_sorted|].
+    apply (Permutation_in _ (sort_z_perm _)). exact Ht. }
+  assert (Hin : In last (keys H)).
+  { unfold last, keys. apply (Permutation_in _ (Permutation_sym (sort_z_perm (map fst H)))). apply last_z_in.
+    intros E. pose proof (sort_z_perm (map fst H)) as Hp. rewrite E in Hp. apply Permutation_sym, Permutation_nil in Hp.
+    destruct H; [congruence|discriminate]. }
+  assert (Hdl : dense_last H (-1) = last) by reflexivity.
+  destruct (C01_dense G S H (-1) HS HG Hne) as (M & EM & D1 & D2 & Hcell).
+  - apply NoDup_nodup_zb. exact K1.
+  - rewrite Hdl. unfold sparse_wfb. apply forallb_forall. intros tr Hin'.
+    assert (Hk : In (fst tr) (keys H)) by (unfold keys; apply in_map; auto).
+    destruct (Hmax _ Hk). apply andb_true_intro. split; [apply andb_true_intro; split; lia|].
+    apply forallb_forall. intros kd Hkd. pose proof (K2 tr Hin' kd Hkd). lia.
+  - rewrite Hdl in *. exists M, last. split; auto. split; auto. split; auto. split; auto.
+    intros s b Hs Hb. rewrite Hcell by auto. apply spec_cell_wsum.
+Qed.
+
+Lemma nth_error_zrange_from : forall n a i, (i < n)%nat -> nth_error (zrange_from a n) i = Some (a + Z.of_nat i).
+Proof.
+  induction n as [|n IH]; intros a i Hi; [lia|]. destruct i as [|i]; cbn [zrange_from nth_error].
+  - f_equal. lia.
+  - rewrite IH by lia. f_equal. lia.
+Qed.
+
+Lemma list_eq_nth_error {X} : forall (l1 l2 : list X), (forall i, nth_error l1 i = nth_error l2 i) -> l1 = l2.
+Proof.
+  induction l1 as [|x l1 IH]; intros [|y l2] H; auto.
+  - specialize (H 0%nat). discriminate.
+  - specialize (H 0%nat). discriminate.
+  - pose proof (H 0%nat) as H0. cbn in H0. injection H0 as ->. f_equal. apply IH. intros i. apply (H (S i)).
+Qed.
+
+Lemma nth_error_map_zrange {X} (f : Z -> X) n i : nth_error (map f (zrange (Z.of_nat n))) i =
+  if Nat.ltb i n then Some (f (Z.of_nat i)) else None.
+Proof.
+  rewrite nth_error_map. unfold zrange. rewrite Nat2Z.id. destruct (Nat.ltb_spec i n).
+  - rewrite nth_error_zrange_from by lia. reflexivity.
+  - assert (E : nth_error (zrange_from 0 n) i = None) by (apply nth_error_None; rewrite zrange_from_length; lia).
+    rewrite E. reflexivity.
+Qed.
+
+Lemma nested_eq (M : list (list Z)) N K : length M = N -> (forall row, In row M -> length row = K) ->
+  M = map (fun s => map (fun b => cell M s b) (zrange (Z.of_nat K))) (zrange (Z.of_nat N)).
+Proof.
+  intros HN HK. apply list_eq_nth_error. intros i. rewrite nth_error_map_zrange.
+  destruct (Nat.ltb_spec i N) as [Hi|Hi]; [|apply nth_error_None; lia].
+  destruct (nth_error M i) as [row|] eqn:Er; [|apply nth_error_None in Er; lia].
+  f_equal. assert (Hrow : In row M) by (eapply nth_error_In; eauto).
+  assert (Eg : get_at M (Z.of_nat i) = Some row).
+  { unfold get_at. destruct (Z.ltb_spec (Z.of_nat i) 0); [lia|]. rewrite Nat2Z.id. exact Er. }
+  apply list_eq_nth_error. intros j. rewrite nth_error_map_zrange.
+  destruct (Nat.ltb_spec j K) as [Hj|Hj]; [|apply nth_error_None; rewrite (HK row Hrow); lia].
+  unfold cell. rewrite Eg. unfold get_at. destruct (Z.ltb_spec (Z.of_nat j) 0); [lia|]. rewrite Nat2Z.id.
+  destruct (nth_error row j) eqn:Ej; [reflexivity|]. apply nth_error_None in Ej. rewrite (HK row Hrow) in Ej. lia.
+Qed.
+
+Section Dims.
+  Variable h : hist.
+  Hypothesis Hcf : conflict_free h = true.
+
+  Lemma event_tick_le c : 0 <= c < ncommits h -> event h c = true -> tick_of h c <= last_event h.
+  Proof.
+    intros Hc He. unfold event in He. apply existsb_exists in He. destruct He as (pl & Hin & E).
+    apply orb_prop in E. destruct E as [E|E]; apply Z.eqb_eq in E.
+    - pose proof (birth_le_last h Hcf pl Hin) as [_ Hb]. unfold birth_tick in Hb. rewrite E in Hb. exact Hb.
+    - assert (Hk : has_killer (snd pl) = true) by (unfold has_killer; apply Z.leb_le; lia).
+      pose proof (death_le_last h pl Hin Hk) as Hd. unfold death_tick in Hd. rewrite E in Hd. exact Hd.
+  Qed.
+
+  Lemma last_event_le B : 0 <= B ->
+    (forall pl, In pl (all_lines h) -> birth_tick h (snd pl) <= B /\ (has_killer (snd pl) = true -> death_tick h (snd pl) <= B)) ->
+    last_event h <= B.
+  Proof.
+    intros HB Hall. unfold last_event. induction (all_lines h) as [|pl l IH]; [cbn; lia|].
+    cbn [fold_right]. destruct (Hall pl (or_introl eq_refl)) as [H1 H2].
+    specialize (IH (fun x Hx => Hall x (or_intror Hx))).
+    destruct (has_killer (snd pl)); [specialize (H2 eq_refl)|]; lia.
+  Qed.
+End Dims.
+
+(* C01_matrix: the dense project matrix IS the ground-truth matrix *)
+Theorem matrix_eq h cf aidx plan w G S M last :
+  conflict_free h = true -> (forall c, 0 <= c < ncommits h -> tick_of h c < mark) -> (forall c, 0 <= znth 0 aidx c) ->
+  plan_okb h plan = true -> run_hist cf h aidx plan = Ok w ->
+  1 <= G -> 1 <= S -> group_sparse_history G S (s_gh (w_shared w)) (-1) = Ok (M, last) ->
+  M = truth_project h G S /\ last = last_event h.
+Proof.
+  intros Hcf Hmark Haidx Hok Er HG HS Eg.
+  destruct (global_sparse h cf aidx Hcf Hmark Haidx plan w Hok Er) as (Hsum & Hgh & Hkeys).
+  assert (Hne : s_gh (w_shared w) <> []) by (intros E0; rewrite E0 in Eg; discriminate).
+  destruct (gh_ok_dense_full mark (s_gh (w_shared w)) G S Hgh Hne HS HG) as (M0 & last0 & E0 & D1 & D2 & Hcell & Hk1 & Hk2).
+  rewrite Eg in E0. injection E0 as <- <-.
+  assert (Hlast : last = last_event h).
+  { apply Z.le_antisymm.
+    - apply Hkeys in Hk2. destruct Hk2 as (c & Hc & He & <-). apply event_tick_le; auto.
+    - apply last_event_le; auto.
+      + destruct (Hk1 _ Hk2). lia.
+      + intros pl Hin. split.
+        * assert (In (birth_tick h (snd pl)) (keys (s_gh (w_shared w)))).
+          { apply Hkeys. exists (l_born (snd pl)). split; [apply (born_range h Hcf pl Hin)|]. split; [|reflexivity].
+            unfold event. apply existsb_exists. exists pl. split; auto. rewrite Z.eqb_refl. reflexivity. }
+          apply Hk1 in H. lia.
+        * intros Hk. assert (In (death_tick h (snd pl)) (keys (s_gh (w_shared w)))).
+          { apply Hkeys. exists (l_killer (snd pl)). split; [apply (killer_range h Hcf pl Hin Hk)|]. split; [|reflexivity].
+            unfold event. apply existsb_exists. exists pl. split; auto. rewrite Z.eqb_refl. apply orb_true_r. }
+          apply Hk1 in H. lia. }
+  split; [|exact Hlast].
+  assert (H0S : 0 <= last / S) by (apply Z.div_pos; [destruct (Hk1 _ Hk2)|]; lia).
+  assert (H0G : 0 <= last / G) by (apply Z.div_pos; [destruct (Hk1 _ Hk2)|]; lia).
+  rewrite (nested_eq M (Z.to_nat (last / S + 1)) (Z.to_nat (last / G + 1)) D1 D2).
+  unfold truth_project, truth_matrix. rewrite <- Hlast. rewrite !Z2Nat.id by lia.
+  apply map_ext_in. intros s Hs. apply zrange_in in Hs. apply map_ext_in. intros b Hb. apply zrange_in in Hb.
+  rewrite Hcell by lia. rewrite Hsum. apply contrib_truth; auto.
+Qed.
+
+Print Assumptions matrix_eq.
+
+(* corollary: with a single head the last row of the implementation's matrix sums to the lines at HEAD *)
+Theorem last_row_is_head h cf aidx plan w G S M last :
+  conflict_free h = true -> single_head h = true ->
+  (forall c, 0 <= c < ncommits h -> tick_of h c < mark) -> (forall c, 0 <= znth 0 aidx c) ->
+  plan_okb h plan = true -> run_hist cf h aidx plan = Ok w ->
+  1 <= G -> 1 <= S -> group_sparse_history G S (s_gh (w_shared w)) (-1) = Ok (M, last) ->
+  sum_z (nth (Z.to_nat (last / S)) M []) = lines_at_head h.
+Proof.
+  intros Hcf Hsh Hmark Haidx Hok Er HG HS Eg.
+  destruct (matrix_eq h cf aidx plan w G S M last Hcf Hmark Haidx Hok Er HG HS Eg) as [-> ->].
+  rewrite <- (truth_project_last_row h G S HG HS Hcf Hsh).
+  unfold truth_project. rewrite (truth_matrix_rows h G S keep_all).
+  pose proof (last_event_nonneg h) as H0. assert (0 <= last_event h / S) by (apply Z.div_pos; lia).
+  assert (E : nth_error (map (truth_row h G S keep_all) (zrange (last_event h / S + 1))) (Z.to_nat (last_event h / S)) =
+              Some (truth_row h G S keep_all (last_event h / S))).
+  { rewrite nth_error_map. unfold zrange. rewrite nth_error_zrange_from by lia. cbn [option_map]. f_equal. f_equal. lia. }
+  rewrite (nth_error_nth _ _ _ E). reflexivity.
+Qed.
+Print Assumptions last_row_is_head.
